@@ -130,7 +130,24 @@ func VerifC15_Leaf() {
 func c15Tree(depth int) secs2.Item {
 	if depth == 0 || vsymChoose(2) == 0 {
 		kinds := []int{8, 9, 10, 11, 15}
-		return c15Leaf(kinds[vsymChoose(len(kinds))], 1)
+		c := vsymChoose(len(kinds) + 5)
+		if c < len(kinds) {
+			return c15Leaf(kinds[c], 1)
+		}
+		// numeric leaves with concrete values (their digits are the subject of Leaf; here it is how a
+		// numeric item of 0, 1, 2 elements sits inside nested lists)
+		switch c - len(kinds) {
+		case 0:
+			return secs2.NewIntItem(2, int16(-3), int16(7))
+		case 1:
+			return secs2.NewUintItem(4)
+		case 2:
+			return secs2.NewFloatItem(4, float32(1.5))
+		case 3:
+			return secs2.NewUintItem(8, uint64(18446744073709551615))
+		default:
+			return secs2.NewFloatItem(8, -0.25, 1e300)
+		}
 	}
 	k := vsymChoose(3)
 	kids := make([]secs2.Item, 0, k)
